@@ -36,5 +36,4 @@ type accessFact struct {
 }
 
 func extractGenerated(repo string, files map[string]string) {}
-func extractAsserts(repo string, files map[string]string)   {}
 func extractAccess(repo string, files map[string]string)    {}
